@@ -537,4 +537,147 @@ def parseBlockText (ts : List Tok) : Except Err Stmt :=
   | .error e => .error e
   | .ok (s, r) => if (dropNl r).isEmpty then .ok s else .error .syntax
 
+/-! ### the top level: lib/parse.c `deparse` / `deparse_func` and `parse_progunit` -/
+
+/-- program units as `deparse` writes them: the `@global` line (`n` globals numbered from `b` = `tree.ngbls_base`), a function
+    (`np` parameters `__p0 ...`; by-reference marks and `...` are not modelled), BEGIN / END blocks, a pattern-less action,
+    a pattern or a range of two with or without an action -/
+inductive Item where
+  | glob (b n : Nat)
+  | func (name : String) (np : Nat) (body : Stmt)
+  | begin_ (body : Stmt)
+  | end_ (body : Stmt)
+  | act (body : Stmt)
+  | pat (p : Ast) (q : Option Ast) (act : Option Stmt)
+
+def canonTok (pre : String) (i : Nat) : Tok := { k := .IDENT, s := pre ++ toString i }
+
+/-- `<pre><b>, <pre><b+1>, ...` (`n` names) -/
+def canonList (pre : String) (b : Nat) : Nat → List SP
+  | 0 => []
+  | 1 => [.p (.t (canonTok pre b))]
+  | n + 2 => [.p (.t (canonTok pre b)), sym ",", blank] ++ canonList pre (b + 1) (n + 1)
+
+/-- hawk_prnptnpt: the second pattern of a range after a comma -/
+def printSecond : Option Ast → List SP
+  | none => []
+  | some q => sym "," :: ex q
+
+/-- a unit without an action ends the line (and the empty line follows); else a blank and the action block -/
+def printAct : Option Stmt → List SP
+  | none => [.nl, .nl]
+  | some b => blank :: (printS 0 0 b ++ [.nl])
+
+/-- `deparse` (one unit) -/
+def printItem : Item → List SP
+  | .glob b n => [kw .XGLOBAL, blank] ++ canonList "__g" b n ++ [sym ";", .nl, .nl]
+  | .func name np body =>
+    [kw .FUNCTION, blank, .p (.t { k := .IDENT, s := name }), blank, sym "("] ++ canonList "__p" 0 np ++ [sym ")", .nl]
+      ++ printS 0 0 body ++ [.nl]
+  | .begin_ body => [kw .BEGIN, blank] ++ printS 0 0 body ++ [.nl]
+  | .end_ body => [kw .END, blank] ++ printS 0 0 body      -- (the newline after an END block is commented out in deparse)
+  | .act body => printS 0 0 body ++ [.nl]
+  | .pat p q a => ex p ++ printSecond q ++ printAct a
+
+def printProg : List Item → List SP
+  | [] => []
+  | i :: r => printItem i ++ printProg r
+
+/-- the parameter list of parse_function after `(`: `)` or `name (, name)* )` -/
+def collectParams : Nat → List Tok → Nat → Except Err (Nat × List Tok)
+  | 0, _, _ => .error .fuel
+  | n + 1, ts, cnt =>
+    match ts with
+    | a :: b :: r =>
+      if a.k != .IDENT then .error .syntax
+      else if b.k == .RPAREN then .ok (cnt + 1, r)
+      else if b.k == .COMMA then collectParams n (dropNl r) (cnt + 1)
+      else .error .syntax
+    | _ => .error .syntax
+
+/-- parse_progunit, pattern case: an optional second pattern after a comma -/
+def patSecond (r1 : List Tok) : Except Err (Option Ast × List Tok) :=
+  if headIs .COMMA r1 then
+    match pExpr r1.tail with
+    | .error e => .error e
+    | .ok (q, r2) => .ok (some q, r2)
+  else .ok (none, r1)
+
+/-- parse_progunit, pattern case: no action before a newline / semicolon / the end, else the action block -/
+def patTail (n : Nat) (p : Ast) (q : Option Ast) (r2 : List Tok) : Except Err (Item × List Tok) :=
+  match r2 with
+  | [] => .ok (.pat p q none, [])
+  | u :: r3 =>
+    if u.k == .NEWLINE || u.k == .SEMICOLON then .ok (.pat p q none, r3)
+    else if u.k != .LBRACE then .error .syntax
+    else
+      match parseStmt n 0 (u :: r3) with
+      | .error e => .error e
+      | .ok (b, r4) => .ok (.pat p q (some b), r4)
+
+/-- one turn of parse_progunit (`gb` = number of built-in globals; the head of `ts` is not a newline) -/
+def parseItem (n gb : Nat) (ts : List Tok) : Except Err (Item × List Tok) :=
+  match ts with
+  | [] => .error .syntax
+  | t :: r =>
+    match t.k with
+    | .XGLOBAL =>
+      match collectLocals (r.length + 1) r 0 with
+      | .error e => .error e
+      | .ok (cnt, r') => .ok (.glob gb cnt, r')
+    | .FUNCTION =>
+      match r with
+      | nm :: lp :: r1 =>
+        if nm.k != .IDENT || lp.k != .LPAREN then .error .syntax else
+        let ps : Except Err (Nat × List Tok) :=
+          match r1 with
+          | rp :: r2 => if rp.k == .RPAREN then .ok (0, r2) else collectParams (r1.length + 1) r1 0
+          | [] => .error .syntax
+        match ps with
+        | .error e => .error e
+        | .ok (np, r2) =>
+          match dropNl r2 with
+          | lb :: r3 =>
+            if lb.k != .LBRACE then .error .syntax else
+            match parseStmt n 0 (lb :: r3) with
+            | .error e => .error e
+            | .ok (b, r4) => .ok (.func nm.s np b, r4)
+          | [] => .error .syntax
+      | _ => .error .syntax
+    | .BEGIN =>
+      if !headIs .LBRACE r then .error .syntax else
+      match parseStmt n 0 r with
+      | .error e => .error e
+      | .ok (b, r1) => .ok (.begin_ b, r1)
+    | .END =>
+      if !headIs .LBRACE r then .error .syntax else
+      match parseStmt n 0 r with
+      | .error e => .error e
+      | .ok (b, r1) => .ok (.end_ b, r1)
+    | .LBRACE =>
+      match parseStmt n 0 (t :: r) with
+      | .error e => .error e
+      | .ok (b, r1) => .ok (.act b, r1)
+    | _ =>
+      match pExpr (t :: r) with
+      | .error e => .error e
+      | .ok (p, r1) =>
+        match patSecond r1 with
+        | .error e => .error e
+        | .ok (q, r2) => patTail n p q r2
+
+/-- the loop around parse_progunit: newlines (and a stray `;`) between the units are skipped -/
+def parseProg : Nat → Nat → List Tok → Except Err (List Item)
+  | 0, _, _ => .error .fuel
+  | n + 1, gb, ts =>
+    match dropNl ts with
+    | [] => .ok []
+    | t :: r =>
+      match parseItem n gb (t :: r) with
+      | .error e => .error e
+      | .ok (i, r1) =>
+        match parseProg n gb r1 with
+        | .error e => .error e
+        | .ok l => .ok (i :: l)
+
 end Hawk.Deparse
